@@ -91,6 +91,135 @@ theorem celsius_acc (k : Rat) (hk : rne k = k) (h0 : 0 ≤ k) (h1 : k ≤ 100000
   rw [abs_le]
   constructor <;> linarith [e1.1, e1.2, e2.1, e2.2, e3.1, e3.2, e4.1, e4.2]
 
+/-! ### the other conversions: two generic error lemmas, then one accuracy theorem each -/
+
+/-- a product with a perturbed constant: `|x·c − x·c₀| ≤ B·e` -/
+theorem mul_err (x c c0 B e : ℚ) (hx : |x| ≤ B) (hc : |c - c0| ≤ e) :
+    |x * c - x * c0| ≤ B * e := by
+  rw [← mul_sub, abs_mul]
+  exact mul_le_mul hx hc (abs_nonneg _) (le_trans (abs_nonneg _) hx)
+
+/-- `round(x, k)`: half a unit of the k-th decimal plus one binary64 rounding -/
+theorem pyRoundN_err (x B : ℚ) (k : ℕ) (hB : |x| ≤ B) :
+    |pyRoundN x k - x| ≤ 1 / (2 * 10 ^ k) + (B + 2) / 9007199254740992 := by
+  unfold pyRoundN
+  have hDeq : (((10 ^ k : ℕ)) : ℚ) = 10 ^ k := by push_cast; rfl
+  rw [hDeq]
+  set D : ℚ := 10 ^ k with hD
+  have hD1 : (1:ℚ) ≤ D := one_le_pow₀ (by norm_num)
+  have hDpos : (0:ℚ) < D := by linarith
+  have e3 := rhe_err (x * D)
+  set y : ℚ := ((rhe (x * D) : ℤ) : ℚ) with hy
+  have h1 : |y / D - x| ≤ 1 / (2 * D) := by
+    have e : y / D - x = (y - x * D) / D := by field_simp
+    rw [e, abs_div, abs_of_pos hDpos]
+    calc |y - x * D| / D ≤ (1 / 2) / D := div_le_div_of_nonneg_right e3 hDpos.le
+      _ = 1 / (2 * D) := by field_simp
+  have h2 : 1 / (2 * D) ≤ 1 / 2 := one_div_le_one_div_of_le (by norm_num) (by linarith)
+  have hB' := abs_le.mp hB
+  have h1' := abs_le.mp h1
+  have e4 := abs_le.mp (rne_err_lin (y / D) (B + 1) (by
+    rw [abs_le]; constructor <;> linarith [h1'.1, h1'.2, hB'.1, hB'.2]))
+  rw [abs_le]
+  constructor <;> linarith [h1'.1, h1'.2, e4.1, e4.2]
+
+theorem fahrenheit_acc (k : Rat) (hk : rne k = k) (h0 : 0 ≤ k) (h1 : k ≤ 1000000) :
+    |kelvinToFahrenheit (.flt k) - ((k - 27315 / 100) * 9 / 5 + 32)| ≤ 1 / 2 + 1 / 1000000 := by
+  have hc0 : lit 27315 (-2) = rne (27315 / 100) := by
+    unfold lit; rw [pow10_eq]; norm_num
+  unfold kelvinToFahrenheit fadd fmul fsub fdiv toF
+  simp only [Num.toRat]
+  rw [hk, hc0]
+  set c := rne (27315 / 100) with hc
+  have e1 := abs_le.mp (rne_err_lin (27315 / 100) 274 (by rw [abs_of_pos] <;> norm_num))
+  rw [← hc] at e1
+  have e2 := abs_le.mp (rne_err_lin (k - c) 1000275 (by rw [abs_le]; constructor <;> linarith [e1.1, e1.2]))
+  set x := rne (k - c) with hx
+  have e3 := abs_le.mp (rne_err_lin (9 / 5) 2 (by rw [abs_of_pos] <;> norm_num))
+  set d := rne (9 / 5) with hd
+  have hxB : |x| ≤ 1000276 := by rw [abs_le]; constructor <;> linarith [e1.1, e1.2, e2.1, e2.2]
+  have hxB' := abs_le.mp hxB
+  have e4 := abs_le.mp (mul_err x d (9 / 5) 1000276 ((2 + 1) / 9007199254740992) hxB (abs_le.mpr e3))
+  have e5 := abs_le.mp (rne_err_lin (x * d) 1800498 (by
+    rw [abs_le]; constructor <;> linarith [e4.1, e4.2, hxB'.1, hxB'.2]))
+  set m := rne (x * d) with hm
+  have e6 := abs_le.mp (rne_err_lin (m + 32) 1800532 (by
+    rw [abs_le]; constructor <;> linarith [e4.1, e4.2, e5.1, e5.2, hxB'.1, hxB'.2]))
+  set a := rne (m + 32) with ha
+  have e7 := abs_le.mp (pyRoundN_err a 1800534 0 (by
+    rw [abs_le]; constructor <;> linarith [e4.1, e4.2, e5.1, e5.2, e6.1, e6.2, hxB'.1, hxB'.2]))
+  norm_num at e7
+  rw [abs_le]
+  constructor <;> linarith [e1.1, e1.2, e2.1, e2.2, e4.1, e4.2, e5.1, e5.2, e6.1, e6.2, e7.1, e7.2]
+
+theorem psi_acc (p : Rat) (hp : rne p = p) (h0 : -10000000000 ≤ p) (h1 : p ≤ 10000000000) :
+    |pascalToPsi (.flt p) - p * 100 / 689476| ≤ 1 / 100000000 := by
+  have hc0 : lit 689476 (-2) = rne (689476 / 100) := by
+    unfold lit; rw [pow10_eq]; norm_num
+  unfold pascalToPsi fdiv toF
+  simp only [Num.toRat]
+  rw [hp, hc0]
+  set c := rne (689476 / 100) with hc
+  have e1 := abs_le.mp (rne_err_lin (689476 / 100) 6895 (by rw [abs_of_pos] <;> norm_num))
+  rw [← hc] at e1
+  have hc1 : (6894:ℚ) ≤ c := by linarith [e1.1]
+  have hcpos : (0:ℚ) < c := by linarith
+  have hinv : |c⁻¹ - 100 / 689476| ≤ ((6895 + 1) / 9007199254740992) / (6894 * 6894) := by
+    have e : c⁻¹ - 100 / 689476 = (689476 / 100 - c) / (c * (689476 / 100)) := by
+      field_simp
+    rw [e, abs_div, abs_of_pos (show (0:ℚ) < c * (689476 / 100) by positivity)]
+    apply div_le_div₀ (by norm_num) _ (by norm_num) _
+    · rw [abs_le]; constructor <;> linarith [e1.1, e1.2]
+    · exact mul_le_mul hc1 (by norm_num) (by norm_num) hcpos.le
+  have hpB : |p| ≤ 10000000000 := abs_le.mpr ⟨h0, h1⟩
+  have e2 := abs_le.mp (mul_err p c⁻¹ (100 / 689476) 10000000000 _ hpB hinv)
+  rw [div_eq_mul_inv p c]
+  have e3 := abs_le.mp (rne_err_lin (p * c⁻¹) 1450400 (by
+    rw [abs_le]; constructor <;> linarith [e2.1, e2.2]))
+  rw [abs_le]
+  constructor <;> linarith [e2.1, e2.2, e3.1, e3.2]
+
+theorem degrees_acc (r : Rat) (hr : rne r = r) (h0 : -10000 ≤ r) (h1 : r ≤ 10000) :
+    |radToDegrees (.flt r) - r * 180 / pi64| ≤ 1 / 2 + 1 / 100000000 := by
+  unfold radToDegrees fmul toF radToDeg fdiv
+  simp only [Num.toRat]
+  rw [hr]
+  have hR0 : |(180:ℚ) / pi64| ≤ 58 := by
+    unfold pi64; rw [abs_of_pos] <;> norm_num
+  have e1 := rne_err_lin (180 / pi64) 58 hR0
+  set R0 : ℚ := 180 / pi64 with hR0e
+  set R := rne R0 with hR
+  have hR0' := abs_le.mp hR0
+  have hrB : |r| ≤ 10000 := abs_le.mpr ⟨h0, h1⟩
+  have e2 := abs_le.mp (mul_err r R R0 10000 _ hrB e1)
+  have e3 := abs_le.mp (rne_err_lin (r * R) 580001 (by
+    rw [abs_le]; constructor <;> nlinarith [e2.1, e2.2, hR0'.1, hR0'.2]))
+  set m := rne (r * R) with hm
+  have e4 := abs_le.mp (pyRoundN_err m 580003 0 (by
+    rw [abs_le]; constructor <;> nlinarith [e2.1, e2.2, e3.1, e3.2, hR0'.1, hR0'.2]))
+  norm_num at e4
+  have e : r * 180 / pi64 = r * R0 := by rw [hR0e]; ring
+  rw [e, abs_le]
+  constructor <;> linarith [e2.1, e2.2, e3.1, e3.2, e4.1, e4.2]
+
+theorem knots_acc (v : Rat) (hv : rne v = v) (h0 : -1000000 ≤ v) (h1 : v ≤ 1000000) :
+    |mpsToKnots (.flt v) - v * 3600 / 1852| ≤ 1 / 20 + 1 / 100000000 := by
+  unfold mpsToKnots fmul toF fdiv
+  simp only [Num.toRat]
+  rw [hv]
+  have e1 := rne_err_lin (3600 / 1852) 2 (by rw [abs_of_pos] <;> norm_num)
+  set K := rne (3600 / 1852) with hK
+  have hvB : |v| ≤ 1000000 := abs_le.mpr ⟨h0, h1⟩
+  have e2 := abs_le.mp (mul_err v K (3600 / 1852) 1000000 _ hvB e1)
+  have e3 := abs_le.mp (rne_err_lin (v * K) 2000000 (by
+    rw [abs_le]; constructor <;> linarith [e2.1, e2.2]))
+  set m := rne (v * K) with hm
+  have e4 := abs_le.mp (pyRoundN_err m 2000002 1 (by
+    rw [abs_le]; constructor <;> linarith [e2.1, e2.2, e3.1, e3.2]))
+  norm_num at e4
+  rw [abs_le]
+  constructor <;> linarith [e2.1, e2.2, e3.1, e3.2, e4.1, e4.2]
+
 /-! ### `convertField` / `applyUnits` / `mkConfig` -/
 
 theorem convertField_untouched (units : List (String × String)) (f : Field)
